@@ -204,6 +204,12 @@ def r5(run, db):
             for a in aw:
                 zt = [t for t in cmp_tests(f) if t["op"] == "Eq" and t["b"] == ("c", 0) and t["a"][0] == "call" and t["a"][1].bb == a.poll.bb or (t["op"] == "Eq" and t["b"] == ("c", 0))]
                 nonzero = [t["false_edge"] for t in zt if t["false_edge"]]
+                # `match n { 0 => break, _ => dispatch }`: an integer switch on the count
+                for ssite, st_ in f.switches():
+                    info = f.switch_info(ssite)
+                    if info.get("kind") == "int" and "0" in info["edges"] and info["edges"].get("otherwise") is not None and info["edges"]["otherwise"] != info["edges"]["0"]:
+                        if any(r["k"] == "call" and r["call"].bb == a.poll.bb for r in f.origins(st_["discr"], through=THROUGH_TRY)):
+                            nonzero.append((ssite.bb, info["edges"]["otherwise"]))
                 ok = ok and bool(nonzero) and all(f.must_pass(Site(e[1], 0), [dp[0].site], to_sites=[rm_[0].site] + f.exits()) for e in nonzero)
             run.check(ok, "v2|every-batch-dispatched", "every non-empty batch received is handed to dispatch_batch (no path back to recv_many around it)",
                       "the fan-out loop can discard a received batch without dispatching it (e.g. a fast path for `no subscribers` that looks only at the first entry): a subscription queued behind a publication in that batch is lost", dp[0].where())
